@@ -1700,3 +1700,114 @@ Proof.
   destruct (afind name_eqb (f_name t) (s_record s')) as [pk|] eqn:Ef; [|congruence].
   exists pk. split. reflexivity. eapply reply_1212_exact; eauto.
 Qed.
+
+(* ====================== 9. the most recent terminal message is a decoded one (for C19) ====================== *)
+Definition recent_ok (s : st) : Prop :=
+  bytes (s_hist s) /\ forall m, s_recent s = Some m -> decoded_header m.
+
+Lemma step_recent_ok d s : recent_ok s ->
+  match Attach.step d s with O_ok s' => recent_ok s' | O_fatal s' => recent_ok s' | O_more => True end.
+Proof.
+  intros [Hb Hr]. unfold Attach.step. destruct (lex d (s_hist s)) as [|hl nm off dlen|index]. exact I.
+  - unfold do_chunk. destruct (afind name_eqb nm (s_record s)).
+    + split. cbn [after_chunk s_hist]. apply bytes_skipn, Hb. exact Hr.
+    + split; assumption.
+  - unfold do_frame. destruct (decode (firstn (N.to_nat index) (s_hist s))) as [m| |] eqn:Ed; try (split; assumption).
+    assert (decoded_header m) as Hm by (eapply decode_gives_decoded_header; [apply bytes_firstn, Hb|exact Ed]).
+    assert (bytes (skipn (N.to_nat index) (s_hist s))) as Hb' by (apply bytes_skipn, Hb).
+    unfold frame_core. destruct (frame_decide d _ m) as [|stage rec cur n miss].
+    + split. exact Hb'. exact Hr.
+    + assert (recent_ok (commit (with_msg (set_hist s (skipn (N.to_nat index) (s_hist s))) m) m stage rec cur n miss)) as Hc.
+      { split. exact Hb'. cbn [commit s_recent]. intros m0 E. injection E as <-. exact Hm. }
+      destruct (has_reply stage); [|exact Hc].
+      destruct (reply_data _); exact Hc.
+Qed.
+
+Lemma recent_ok_set_err s : recent_ok s -> recent_ok (set_err s).
+Proof. intros H. exact H. Qed.
+Lemma recent_ok_set_stage s g : recent_ok s -> recent_ok (set_stage s g).
+Proof. intros H. exact H. Qed.
+
+Lemma iter_recent_ok d : forall fuel s, recent_ok s -> recent_ok (snd (fst (iter fuel d s))).
+Proof.
+  induction fuel as [|fuel IH]; intros s H; cbn [Attach.iter].
+  - destruct (s_hist s); exact H.
+  - destruct (s_hist s) eqn:Eh. exact H.
+    pose proof (step_recent_ok d s H) as Hs.
+    destruct (Attach.step d s) as [s'| |s']; cbn [fst snd]; try exact H.
+    + specialize (IH s' Hs). destruct (iter fuel d s') as [[[evs w] s''] stop]. exact IH.
+    + apply recent_ok_set_err, Hs.
+Qed.
+
+Lemma run_from_recent_ok d : forall segs s, Forall bytes segs -> recent_ok s ->
+  recent_ok (snd (run_from d s segs)).
+Proof.
+  induction segs as [|seg segs IH]; intros s Hall H; cbn [run_from].
+  - cbn [snd]. apply recent_ok_set_stage, H.
+  - apply Forall_cons_iff in Hall. destruct Hall as [Hseg Hall]. destruct seg as [|b seg]. apply IH; assumption.
+    unfold feed.
+    assert (recent_ok (set_hist s (s_hist s ++ b :: seg))) as H1.
+    { destruct H as [Hb Hr]. split. cbn [set_hist s_hist]. apply bytes_app. split; assumption. exact Hr. }
+    pose proof (iter_recent_ok d (S (length (s_hist (set_hist s (s_hist s ++ b :: seg))))) _ H1) as Hi.
+    destruct (iter _ d (set_hist s (s_hist s ++ b :: seg))) as [[[evs w] s'] stop]. cbn [fst snd] in Hi.
+    destruct stop. cbn [snd]. apply recent_ok_set_stage, Hi.
+    specialize (IH s' Hall Hi). destruct (run_from d s' segs) as [[evs2 w2] s'']. exact IH.
+Qed.
+
+(* THE RECENT MESSAGE OF EVERY RUN IS A DECODED ONE: whatever bytes arrive in whatever reads, RecentTerminalMessage
+   at the end of the connection (the message whose phone number names the directory the files go to) was produced
+   by Frame.decode from bytes, hence has a BCD phone field of 6 or 10 bytes *)
+Theorem run_recent_decoded d reads m : Forall bytes reads ->
+  s_recent (snd (run d reads)) = Some m -> decoded_header m.
+Proof.
+  intros Hall H. unfold run in H.
+  assert (recent_ok init_st) as H0. { split. constructor. intros m0 E. discriminate. }
+  exact (proj2 (run_from_recent_ok d reads init_st Hall H0) m H).
+Qed.
+
+Corollary run_recent_phone d reads m : Forall bytes reads ->
+  s_recent (snd (run d reads)) = Some m -> bytes (m_bcd m) /\ m_bcd m <> [].
+Proof.
+  intros Hall H. destruct (run_recent_decoded d reads m Hall H) as (_ & _ & _ & Hb & Hl). split. exact Hb.
+  intros E. rewrite E in Hl. destruct (m_ver m =? 1); discriminate.
+Qed.
+
+(* ====================== 10. the Record is the set of arrived tiles; the 0x9212 frame ====================== *)
+Theorem record_is_arrived d split its sts k s' : split_ok split -> Forall (wf_item d) its ->
+  Forall (item_of d split) its -> irun d init_st its = Some sts -> nth_error sts k = Some s' ->
+  forall nm pk, afind name_eqb nm (s_record s') = Some pk ->
+  forall x, In x (p_data pk) <-> In x (arrived d nm [] (firstn (S k) its)).
+Proof.
+  intros Hsp Hall Hof H Hs nm pk Hf.
+  pose proof (irun_firstn d (S k) its init_st sts H) as Hk.
+  apply (irun_arrived d split (firstn (S k) its) init_st (firstn (S k) sts) [] nm Hsp).
+  - apply Forall_forall. intros y Hy. rewrite Forall_forall in Hall. apply Hall. eapply in_firstn, Hy.
+  - apply Forall_forall. intros y Hy. rewrite Forall_forall in Hof. apply Hof. eapply in_firstn, Hy.
+  - apply rinv_init.
+  - intros pk0 Hf0. discriminate.
+  - exact Hk.
+  - rewrite (last_firstn_nth sts k s' init_st Hs). exact Hf.
+Qed.
+
+(* a byte is covered by the recorded ranges exactly when it lies in a tile that has arrived *)
+Theorem recorded_covers_arrived d split its sts k s' : split_ok split -> Forall (wf_item d) its ->
+  Forall (item_of d split) its -> irun d init_st its = Some sts -> nth_error sts k = Some s' ->
+  forall nm pk, afind name_eqb nm (s_record s') = Some pk ->
+  forall x, covered (p_recs pk) x <->
+            exists off data, In (off, data) (arrived d nm [] (firstn (S k) its)) /\ off <= x < off + len data.
+Proof.
+  intros Hsp Hall Hof H Hs nm pk Hf x.
+  pose proof (record_is_arrived d split its sts k s' Hsp Hall Hof H Hs nm pk Hf) as Hd.
+  unfold covered, p_recs. split.
+  - intros (o & n & Hin & Hx). apply in_map_iff in Hin. destruct Hin as ([o2 dt] & E & Hin). cbn [fst snd] in E.
+    injection E as <- <-. exists o2, dt. split. apply Hd, Hin. exact Hx.
+  - intros (o & dt & Hin & Hx). exists o, (len dt). split; [|exact Hx].
+    apply in_map_iff. exists (o, dt). split. reflexivity. apply Hd, Hin.
+Qed.
+
+(* the bytes of the answer to a 0x1212: Header.Encode of the first message's header with id 0x9212, the platform
+   serial and T0x1212.ReplyBody of the retransmit list (AS THE CODE ENCODES IT: the body length is not masked, so a
+   list of 127 or more ranges - a body over 1023 bytes - spills into the flag bits of the property word) *)
+Lemma prescribed_1212 hd m k miss t : m_id m = ID_1212 -> parse1211 (m_body m) = Ok t ->
+  prescribed hd m k miss = encode hd ID_9212 k (reply1212 t miss).
+Proof. intros Hid Hp. unfold prescribed. rewrite Hid. cbn [ID_1212 N.eqb Pos.eqb]. rewrite Hp. reflexivity. Qed.
